@@ -36,6 +36,7 @@ def check_pairs(items, res, stratum):
             if build == 'iterated' and shx is None and shy is None:
                 # scalar operands obtained by ITERATING over an array (for a in x / zip(x, y) / list(x))
                 x = [e for e in A.mk(fx, np, *fxm, [0, cx[0]], shape=(2,), **cfg2)][1]; y = list(A.mk(fx, np, *fym, [cy[0], 0], shape=(2,)))[0]
+            if build == 'same_object': y = x      # ONE object as both operands (np.add(x, x), x * x)
             if build == 'rewritten' and shx is not None and len(shx) == 1:
                 # an array operand that was used in the same operation BEFORE, holding other codes, and whose codes were then rewritten in place
                 # through a view (v = x[0:n]; v[i] = ...): the operation sees the codes held now
@@ -164,6 +165,11 @@ def random_items(rng, n):
         if rng.random() < 0.3: cfg_['array_op_method'] = 'raw'
         if rng.random() < 0.15 and '_build' not in cfg_: cfg_['array_output_type'] = 'array'      # (only the NumPy-function route looks at it)
         if rng.random() < 0.3 and '_build' not in cfg_: cfg_['_ycfg'] = {'array_op_method': 'raw'}
+        if rng.random() < 0.06 and A.grow_word(op, fxm, fxm) <= 53:
+            # one object given as both operands, through the NumPy functions too, with an operator-sizing policy in its configuration
+            # (the functions called by name size their results by their own default, the optimal rule)
+            rt_ = rng.choice(['numpy', 'numpy', 'func'])
+            items.append((op, fxm, cx, shx, fxm, cx, shx, rt_, {'_build': 'same_object'} | ({'op_sizing': rng.choice(['same', 'smallest', 'largest', 'fit'])} if rng.random() < 0.7 else {}))); continue
         if shx is not None and len(cx) > 1 and '_build' not in cfg_ and 'array_output_type' not in cfg_ and rng.random() < 0.4: cfg_['_build'] = 'rewritten'
         items.append((op, fxm, cx, shx, fym, cy, shy, rng.choice(['operator', 'func', 'numpy']), cfg_))
     return items
